@@ -1,5 +1,8 @@
+pub mod ddlevel;
 pub mod infra;
+pub mod monitor;
 pub mod model;
 pub mod props;
 pub mod run;
+pub mod sched;
 pub mod wrap;
